@@ -163,6 +163,19 @@ which is applied before the metric batch is validated, and a partially failing p
 def patchApplied (out : Outputs) : Bool :=
   out.exit = 0 && !malformed out && (out.patch = .ops true || out.patch = .ops false)
 
+/-- The contract as the property words it (used by the oracle on observed executions): failure iff
+`fails`; a non-zero exit or a malformed output ⇒ nothing at all is applied; no failure ⇒ every
+non-empty output is applied; an execution that fails for a semantic reason (the patch cannot be
+applied, the metric batch is rejected) sends no metrics and relays no response — whether its patch
+was applied before the failure is left open by the property (the code applies the patch first:
+`patchApplied`, `handle_outcome`). -/
+def admits (out : Outputs) (allow : Bool) (statusFail p m a c : Bool) : Bool :=
+  statusFail == (fails out && !allow) &&
+  (if out.exit ≠ 0 || malformed out then !p && !m && !a && !c
+   else if fails out then !m && !a && !c
+   else p == (out.patch = .ops true) && m == (out.metrics = .ops true) &&
+        a == (out.admission = .some) && c == (out.conversion = .some))
+
 def metricsApplied (out : Outputs) : Bool := !fails out && out.metrics = .ops true
 def admissionRelayed (out : Outputs) : Bool := !fails out && out.admission = .some
 def conversionRelayed (out : Outputs) : Bool := !fails out && out.conversion = .some
